@@ -91,6 +91,11 @@ def apply_edit(db, e):
         x = e['idx']
         t.add_index(Index(subjects=[t.columns[x['subj'][0]['i'] - 1]], name=dec(x['name']) or None, unique=x['unique'],
                           type=x['type'] or None))
+    elif op == 'dup_index':
+        t = db.tables[e['t'] - 1]
+        x = t.indexes[e['x'] - 1]
+        t.add_index(Index(subjects=list(x.subjects), name=x.name, unique=x.unique, type=x.type, pk=x.pk,
+                          note=x.note.text if x.note else None, comment=x.comment))
     elif op == 'remove_index':
         db.tables[e['t'] - 1].delete_index(e['x'] - 1)
     elif op == 'add_enum_item':
